@@ -11,7 +11,7 @@
 From Coq Require Import Reals ZArith List String.
 From PyLib Require Import PyVal PyBuiltins Ideal.
 From Gen Require Import M_base M_Angle M_Epoch M_Interpolation M_Coordinates M_Earth.
-From Proofs.C18 Require Import C18_spec C18_defs C18_bridge C18_dist C18_main.
+From Proofs.C18 Require Import C18_spec C18_defs C18_bridge C18_dist C18_main C18_par C18_parbound.
 Import ListNotations.
 Open Scope R_scope.
 
@@ -122,6 +122,30 @@ Theorem C18_distance_value : forall a f w l1 p1 l2 p2,
   = dist_spec a f l1 p1 l2 p2.
 Proof. exact dist_float_all. Qed.
 
+(* closed form of Earth.parallax_correction (after the repairs 2d034b9): with k = sin(8.794'')/distance,
+   (rho_cos, rho_sin) of the WGS84 observer, A = cos d - rho_cos k cos H, B = - rho_cos k sin H:
+   delta_alpha = atan2(B, A), topocentric declination = atan2(sin d - rho_sin k, sqrt(A^2 + B^2)), both
+   returned as Angles in degrees; the right ascension is the model's Angle.__add__ of the input and
+   delta_alpha ([mk_tuple] is the model's tuple constructor) *)
+Theorem C18_parallax_correction_closed_form : forall ra t1 dec t2 lat t3 dist H t4 h, dist <> 0 ->
+  Earth_parallax_correction Rops (ang ra t1) (ang dec t2) (ang lat t3) (VFloat dist) (ang H t4) (VFloat h)
+  = mk_tuple
+      [Angle___add__ Rops (ang ra t1)
+         (ang (deg (topo_dalpha dec H (rho_cos a_wgs f_wgs h (rad lat)) (par_k dist))) tol0);
+       ang (deg (topo_dec dec H (rho_cos a_wgs f_wgs h (rad lat)) (rho_sin a_wgs f_wgs h (rad lat)) (par_k dist))) tol0].
+Proof. exact parallax_correction_closed. Qed.
+
+(* the topocentric declination of that closed form obeys a limit-free bound that vanishes as the
+   distance grows: with q = rho |k| < 1 (rho = sqrt(rho_cos^2 + rho_sin^2), k = sin(8.794'')/distance),
+   |sin dec' - sin dec| <= 2 q / (1 - q), for every hour angle and declination (poles included) *)
+Theorem C18_parallax_declination_bound : forall dec H rc rs k,
+  sqrt (rc * rc + rs * rs) * Rabs k < 1 ->
+  Rabs (sin (topo_dec dec H rc rs k) - sin (rad dec))
+  <= 2 * (sqrt (rc * rc + rs * rs) * Rabs k) / (1 - sqrt (rc * rc + rs * rs) * Rabs k).
+Proof. intros dec H rc rs k Hq. exact (topo_dec_sin_bound (rad dec) (rad H) rc rs k Hq). Qed.
+
+Redirect "C18_parallax_declination_bound.assumptions" Print Assumptions C18_parallax_declination_bound.
+Redirect "C18_parallax_correction_closed_form.assumptions" Print Assumptions C18_parallax_correction_closed_form.
 Redirect "C18_builtin.assumptions" Print Assumptions C18_builtin.
 Redirect "C18_earth_object.assumptions" Print Assumptions C18_earth_object.
 Redirect "C18_set_ellipsoid.assumptions" Print Assumptions C18_set_ellipsoid.
